@@ -165,6 +165,49 @@ def r2_end_marker(ctx):
                     if "len" in names_in(f, sl):
                         ok, how = True, "buf[chunk.len()] = 1 terminates the last chunk (%s)" % ir.line_of(s["sp"]["at"])
         ctx.ob("R2", "end-marker:%s::hash" % ty.split("::")[-1], ok, how, f)
+        if ok:
+            g_ok, g_how = last_chunk_test(f, bufs)
+            ctx.ob("R2", "last-chunk-test-uses-global-index:%s::hash" % ty.split("::")[-1], g_ok, g_how, f)
+
+
+def last_chunk_test(f, bufs):
+    """the branch that selects the padded last chunk must compare a chunk index that runs over the
+    whole input: a counter that is set back to a constant inside the chunk loop (the in-block rate
+    position) selects the wrong chunk once the input is longer than one block."""
+    from .c03 import for_loops
+    marker = None
+    for bi, b in enumerate(f.blocks):
+        for s in b["s"]:
+            if s["k"] == "assign" and s["p"][0] in bufs and len(s["p"]) == 2 and s["rv"][0] == "use":
+                c = op_const(s["rv"][1])
+                if c is not None and str(c.get("v")) == "1":
+                    marker = bi
+    loops = [L for L in for_loops(f) if marker in L["body"]]
+    if marker is None or not loops:
+        return False, "marker store or chunk loop not found"
+    L = loops[0]
+    found = False
+    for cs in cmp_sites(f):
+        if cs["bb"] not in L["body"]:
+            continue
+        for c in f.bool_checks_of_local(cs["local"]):
+            t_r = any(f.can_reach(t, [marker], cut_blocks=[L["header"]]) for _, t in c["true_edges"])
+            f_r = any(f.can_reach(t, [marker], cut_blocks=[L["header"]]) for _, t in c["false_edges"])
+            if t_r == f_r:
+                continue
+            found = True
+            for o in (cs["a"], cs["b"]):
+                l = op_local(o)
+                if l is None:
+                    continue
+                for x in f.copy_chain(l):
+                    for d in f.defs(x):
+                        if d["kind"] == "assign" and d["bb"] in L["body"] and d["rv"][0] == "use" and op_const(d["rv"][1]) is not None and f.local_name(x):
+                            return False, "the last chunk is selected by comparing `%s`, which is reset to a constant inside the chunk loop (%s): for inputs longer than one block the wrong chunk is padded" % (
+                                f.local_name(x), ir.line_of(d["at"]))
+    if not found:
+        return False, "no comparison selects the branch that writes the end marker"
+    return True, "the padded chunk is selected by a chunk index that is never reset inside the loop"
 
 
 def _moduli(p):
@@ -309,7 +352,7 @@ def r5_merge_many(ctx):
 
 def run(ctx):
     ctx.rule("R1", "Rescue hash / hash_elements store a value derived from the input's len() into the sponge state before the first permutation", 6)
-    ctx.rule("R2", "Rescue hash(bytes) terminates the last byte chunk with a 1 placed right after its data", 3)
+    ctx.rule("R2", "Rescue hash(bytes) terminates the last byte chunk with a 1 placed right after its data; the last chunk is selected by an index that is not reset inside the loop", 6)
     ctx.rule("R3", "Rescue merge_with_int: value absorbed; branch on value < MODULUS with different domain constants; value / MODULUS absorbed in the large branch", 9)
     ctx.rule("R4", "byte hashers pass the whole input to the hash function; merge_with_int hashes seed || value.to_le_bytes() of fixed width", 6)
     ctx.rule("R5", "merge_many is the hash of the concatenated digests", 6)
